@@ -109,7 +109,9 @@ func init() {
 		}
 		daemon, err := startFakeDaemon()
 		if err != nil {
-			fatal("fake daemon: %v", err)
+			// no way to serve a socket here: the end-to-end part is skipped (said in the evidence), the rest stands
+			c.Res.Notes = append(c.Res.Notes, "end-to-end check skipped: fake daemon could not listen: "+err.Error())
+			return
 		}
 		defer daemon.Close()
 		cli := startCLI(c)
@@ -243,7 +245,7 @@ func init() {
 			Key:     func(t e2eCase) string { return strings.Join(t.args(), " ") + fmt.Sprint(t.Ctrs) },
 			Timeout: 40e9,
 		}
-		c.Res.Rule += "; END TO END: the plugin binary (cobra command, flag parsing, Docker client over HTTP, querier, engine, renderer) run against a fake Docker daemon on a loopback port: 1-5 containers with Docker labels and interleaved logs (distinct timestamps) x log query (selector, line/label filters, logfmt, json, drop, label_format) x --start/--end in the four timestamp spellings or --end/--since x --limit x --timestamp/--container; its stdout must equal renderResult of Engine.Eval over the same logs with the parameters the flags model resolves, its exit status must agree, and the daemon must have been asked exactly once per selected container with since/until = whole seconds of start/end, timestamps, stdout, stderr and tail=all"
+		c.Res.Rule += "; END TO END: the plugin binary (cobra command, flag parsing, Docker client over HTTP, querier, engine, renderer) run against a fake Docker daemon on a unix socket: 1-5 containers with Docker labels and interleaved logs (distinct timestamps) x log query (selector, line/label filters, logfmt, json, drop, label_format) x --start/--end in the four timestamp spellings or --end/--since x --limit x --timestamp/--container; its stdout must equal renderResult of Engine.Eval over the same logs with the parameters the flags model resolves, its exit status must agree, and the daemon must have been asked exactly once per selected container with since/until = whole seconds of start/end, timestamps, stdout, stderr and tail=all"
 		RunSpec(c, spec, c.Scale(150, 2500))
 	}
 	propsExtra["C16"] = append(propsExtra["C16"], e2e)
